@@ -22,7 +22,9 @@ LEVEL = 'exploration'
 RULE = ('Hypothesis draws module sets (1-3 modules, SMIv2 and SMIv1, 3-14 declarations of every kind) whose '
         'modules import OID nodes, objects, plain types and textual conventions from each other; identifiers '
         'plain, mixed-case and hyphenated. Non-trivial: a set with >= 2 generated modules and >= 1 cross-module '
-        'import of a type / TC / object, or a module with >= 1 table. Distinct = model hash.')
+        'import of a type / TC / object, or a module with >= 1 table. Distinct = model hash. Closure facet: one compile() '
+        'call per set (all sources available); non-trivial when an SMIv1 module imports MIB-II objects that are relocated '
+        'to SMIv2 modules.')
 ASSUMPTIONS = [
     'JSON -> pysnmp images: scalar/table/row/column -> MibScalar/MibTable/MibTableRow/MibTableColumn, '
     'objectidentity -> ObjectIdentity, ...; INTEGER -> Integer32, OCTET STRING -> OctetString, Counter -> Counter32 ...',
